@@ -30,8 +30,15 @@ pub fn lit(v: &Value, ty: Ty) -> String {
             }
         },
         Value::Float(f) => {
-            // dyadic rationals only: prints exactly with finitely many digits
-            format!("CAST({} AS DOUBLE)", fmt_dyadic(*f))
+            let two = format!("{:.2}", f);
+            if two.parse::<f64>().map(|x| x == *f).unwrap_or(false) {
+                // quarters and integers print exactly with two decimals
+                format!("CAST({} AS DOUBLE)", fmt_dyadic(*f))
+            } else {
+                // anything else goes through the text cast: the shortest
+                // round-trip rendering parses back to exactly this double
+                format!("CAST('{f:?}' AS DOUBLE)")
+            }
         }
         Value::Str(s) => format!("'{}'", s.replace('\'', "''")),
         Value::Other(s) => s.clone(),
